@@ -47,7 +47,7 @@ def main():
         dst = os.path.join(wt, pkgdir, os.path.basename(demo))
         shutil.copy(demo, dst)
         use126 = "synctest" in open(demo).read() or (cmd and "1.26" in cmd)
-        gobin = "GOTOOLCHAIN=local go1.26.8" if use126 else "go"
+        gobin = "GODEBUG=asynctimerchan=0 GOTOOLCHAIN=local go1.26.8" if use126 else "go"
         runname = re.findall(r"^func (Test\w+)", open(demo).read(), re.M)
         tags = "-tags verif " if re.search(r"^//go:build .*verif", open(demo).read(), re.M) else ""
         race = "-race " if prop == "C13" else ""
